@@ -1,4 +1,4 @@
-(* C10 — census of the SQL construction sites of the reader (data: gen/GenSqlSites.v, regenerated from
+(* C10 — census of the SQL construction sites of the reader (data: gen/GenC10Sites.v, regenerated from
    the Go source by translate/gen_sqlsites) and the check applied to every site.  Executable definitions only. *)
 From Coq Require Import List String Ascii Bool ZArith.
 From Qryn Require Import model.Quote model.ChLex.
